@@ -1,6 +1,7 @@
 (* C13 — Push dispatch: right handlers, exactly once, in order.  Reader and dispatcher of one connection
    around the bounded receive queue (Model/Dispatch.v), for every interleaving of their steps. *)
 From Coq Require Import List NArith.
+From Coq.Strings Require Import Byte.
 From OAP Require Import Base.Bytes Base.Res Gen.Consts Model.Metadata Model.Header Model.Waiters Model.Dispatch Proofs.DispatchP.
 Import ListNotations.
 Local Open Scope N_scope.
@@ -27,7 +28,39 @@ Theorem C13_push_to_own_handlers_only : forall sb p h q,
   In (h, q) (deliver sb p) -> q = p /\ In h (sb (w_cmd p)) /\ w_ty p = PTPush.
 Proof. exact push_to_own_handlers. Qed.
 
+(* the dispatcher's lifecycle.  Its last iteration (the one that sees the connection closed) hands over everything
+   still queued, and the connection is reported gone exactly once, after that *)
+Theorem C13_close_drains_the_queue : forall sb s, DInv sb s -> d_phase s = DPRunning -> d_closed s = true ->
+  let s' := dstep sb s DTake in
+  d_phase s' = DPExited /\ d_queue s' = [] /\ d_taken s' = d_accepted s /\
+  d_calls s' = flat_map (deliver sb) (d_accepted s) /\ d_gone s' = S (d_gone s).
+Proof. exact exit_drains. Qed.
+Theorem C13_invariant_in_every_reachable_state : forall sb cap acts, DInv sb (drun_u sb cap acts).
+Proof. exact dinv_run_u. Qed.
+Theorem C13_gone_reported_once : forall sb cap acts, gone_ok (drun_u sb cap acts).
+Proof. exact gone_reported_once. Qed.
+(* when the client registers its packet callback does not matter: whatever the reader queued (and even a close)
+   before the registration is treated as if the callback had been there from the start *)
+Theorem C13_late_registration_unobservable : forall sb cap rs ks, forallb reader_side rs = true ->
+  drun_u sb cap (rs ++ DStart :: ks) = drun sb cap (rs ++ ks).
+Proof. exact late_registration_unobservable. Qed.
+Theorem C13_closed_before_registration_delivers_all : forall sb cap rs, forallb reader_side rs = true -> In DClose rs ->
+  let s := drun_u sb cap (rs ++ [DStart; DTake]) in
+  d_calls s = flat_map (deliver sb) (d_accepted s) /\ d_queue s = [] /\ d_gone s = 1%nat /\ d_phase s = DPExited.
+Proof. exact closed_before_registration_delivers_all. Qed.
+(* non-vacuity: three pushes and a close before the registration, two handlers *)
+Example C13_late_example :
+  let p n := mkWpkt PTPush 50 0 0 [n] in
+  let s := drun_u (fun c => if c =? 50 then [0; 1]%nat else []) 8 [DRecv (p "1"%byte); DRecv (p "2"%byte); DRecv (p "3"%byte); DClose; DStart; DTake] in
+  length (d_calls s) = 6%nat /\ d_gone s = 1%nat /\ d_queue s = [].
+Proof. vm_compute. repeat split. Qed.
+
 Print Assumptions C13_push_delivery.
+Print Assumptions C13_close_drains_the_queue.
+Print Assumptions C13_invariant_in_every_reachable_state.
+Print Assumptions C13_gone_reported_once.
+Print Assumptions C13_late_registration_unobservable.
+Print Assumptions C13_closed_before_registration_delivers_all.
 Print Assumptions C13_push_delivery_quiescent.
 Print Assumptions C13_only_logged_overflow_is_lost.
 Print Assumptions C13_drop_only_when_full.
